@@ -26,6 +26,9 @@ from pvc import src as S, kern as K, twin as T, ev as E, classes as CL
 from pvc.val import *  # noqa
 from pvc import val as V
 
+# property-level native oracle used as the replay of refuted obligations that carry no model-specific replay
+FALLBACK_REPLAY = {"handler": "bounded_any", "input": {"what": "relabel_pipeline"}, "expected": "results are invariant under relabelling and row order"}
+
 JC = "pandapipes.component_models.junction_component"
 BWO = "pandapipes.component_models.abstract_models.branch_wo_internals_models"
 BWI = "pandapipes.component_models.abstract_models.branch_w_internals_models"
